@@ -72,6 +72,7 @@ def run(ck, fb):
     _run0(ck, fb)
     r07f(ck, fb)
     r07g(ck, fb)
+    r07j(ck, fb)
     ck.borrow('rules.c09', {'R09c': 'R07i'}, 'the replicated publish is a no-op only when the node already holds that content as APPLIED content: a follower that holds it as temporary value must record it like the leader does')
     ck.borrow('rules.c01', {'R01n': 'R07h'}, 'the start-up replay path must decide a request as the live apply path did: an index that only load_completed builds is empty during the replay')
 
@@ -258,3 +259,28 @@ def r07g(ck, fb):
                    'the second ConfigAdd is a no-op on the leader and on replay (1 history record) but a change on F (2 records, new '
                    'modification time, listeners notified)', 'compared with the stored md5 / content first')
     ck.floor('R07g', 'tmp marks on an existing entry', n, 1)
+
+
+def r07j(ck, fb, R='R07j'):
+    ck.rule(R, 'the start-up replay visits the log files one after the other: RaftLogManager::async_load_record sends RaftLogRequest::Load to a file '
+               'actor and awaits the answer before it turns to the next file (the send is awaited inside the loop; no join_all / select / spawn / '
+               'FuturesUnordered over the sends). Loaded concurrently, the entries of a later file are applied before those of an earlier one: a '
+               'restarted node ends with an older value, a removed key, a history out of order - the leader and the followers do not')
+    LM = 'rnacos::raft::filestore::raftlog::RaftLogManager::'
+    b = fb.main(LM + 'async_load_record') if fb.has(LM + 'async_load_record') else None
+    if b is None:
+        ck.body(LM + 'async_load_record', R)
+        return
+    ck.analysed(b)
+    reg = util.region(fb, b)
+    sd = [(x, s0) for x in reg for (s0, m0, v0, a0) in util.sends(x, r'raftlog::RaftLogRequest$', 'Load')]
+    ck.floor(R, 'Load sends in async_load_record', len(sd), 1)
+    for (x, s0) in sd:
+        in_loop = util.loop_can_skip(x, s0.bb)[0]
+        ck.require(x is b and util.awaited(x, s0) and in_loop, R, 'async_load_record:one-file-at-a-time', s0.where(),
+                   'the Load request to a log file is not awaited before the next file is asked (sent from %s, awaited there: %s): the files are '
+                   'replayed concurrently and later entries can be applied before earlier ones' % (x.name.split('::')[-1], util.awaited(x, s0)),
+                   'awaited inside the loop')
+    conc = [s0 for x in reg for s0 in x.calls(r'join_all|try_join_all|FuturesUnordered|FuturesOrdered|select_all|tokio::spawn|actix_rt::spawn|::buffer_unordered')]
+    ck.require(not conc, R, 'async_load_record:no-concurrent-combinator', conc[0].where() if conc else b.where(),
+               'the replay of the log files goes through %s' % (conc[0].callee if conc else ''))
